@@ -872,7 +872,7 @@ func ruleMetadataAccumulation(c *Ctx, rule string) {
 			}
 		}
 		c.check(ok, rule, emitKey(w, e)+": carries the metadata assembled at allocation", w.At(e.Alloc), desc(v), "new_stream RequestHeaders is "+desc(v)+", expected toProto(<metadata returned by the allocation function>)")
-		c.check(origin(e.Payload["NewStream.MethodName"]) == ssa.Value(a.NewStream.Params[4]), rule, emitKey(w, e)+": names the requested method", w.At(e.Alloc), desc(e.Payload["NewStream.MethodName"]), "new_stream MethodName is "+desc(e.Payload["NewStream.MethodName"])+", not the method the caller asked for")
+		c.check(len(a.NewStream.Params) > 4 && origin(e.Payload["NewStream.MethodName"]) == ssa.Value(a.NewStream.Params[4]), rule, emitKey(w, e)+": names the requested method", w.At(e.Alloc), desc(e.Payload["NewStream.MethodName"]), "new_stream MethodName is "+desc(e.Payload["NewStream.MethodName"])+", not the method the caller asked for")
 	}
 	if a.Allocate != nil {
 		fn := a.Allocate
